@@ -55,7 +55,17 @@ def parse(payload, rep="bytes", entry="ctor"):
         if not out:
             raise RuntimeError("the frame was not returned by the reader")
         return out[-1]
-    return RTCMReader.parse(streams.as_rep(rep, refcrc.frame(payload)))
+    fr = refcrc.frame(payload)
+    if len(payload) % 4 == 1:
+        # the documented positional order parse(message, validate, labelmsm) with validation OFF and a wrong checksum
+        # trailer: the fields decode all the same (a keyword-only signature is tolerated)
+        bad = fr[:-1] + bytes([fr[-1] ^ 0x5A])
+        try:
+            return RTCMReader.parse(streams.as_rep(rep, bad), 0)
+        except TypeError as e:
+            if "positional" not in str(e):
+                raise
+    return RTCMReader.parse(streams.as_rep(rep, fr))
 
 
 def collider_first(payload, rng):
